@@ -481,10 +481,24 @@ class CallMixin:
                 for res in child.explore(setup):
                     okey = res.outcome + ":" + repr(res.value)
                     g = groups.setdefault(okey, {"outcome": res.outcome, "value": res.value, "where": res.where,
-                                                 "kinds": [set() for _ in args], "events": {}})
+                                                 "kinds": [set() for _ in args], "events": {},
+                                                 "names_in": [set() for _ in args], "names_any": [False for _ in args],
+                                                 "names_out": [None for _ in args]})
                     for i, ks in enumerate(res.entry.get("arg_kinds", [])):
                         if ks is not None:
                             g["kinds"][i] |= ks
+                            if "Call" in ks:
+                                # what this path learnt about the called function's name
+                                eqs = [v for k, v in res.entry.get("sym_eq", {}).items() if f"${i}.func" in k and isinstance(v, str)]
+                                neqs = set()
+                                for k, v in res.entry.get("sym_neq", {}).items():
+                                    if f"${i}.func" in k:
+                                        neqs |= {x for x in v if isinstance(x, str)}
+                                if eqs:
+                                    g["names_in"][i].add(eqs[0])
+                                else:
+                                    g["names_any"][i] = True
+                                    g["names_out"][i] = neqs if g["names_out"][i] is None else (g["names_out"][i] & neqs)
                     for ev in res.events:
                         if ev.kind in ("may_raise", "attr_missing", "index_maybe_out_of_range"):
                             g["events"][ev.kind + repr(sorted(ev.data.items(), key=lambda kv: kv[0]))] = ev
@@ -502,6 +516,12 @@ class CallMixin:
                 new = a.kinds & g["kinds"][i]
                 if new != a.kinds:
                     a.kinds = set(new)
+                if "Call" in a.kinds and "names_in" in g:
+                    if not g["names_any"][i]:
+                        a.call_in = set(g["names_in"][i]) if a.call_in is None else (a.call_in & g["names_in"][i])
+                    else:
+                        out = (g["names_out"][i] or set()) - g["names_in"][i]
+                        a.call_out |= out
         if len(feasible) > 1:
             self.cond(f"{q.rsplit('.', 1)[-1]}({','.join(_describe(a) for a in args)})", repr(g["value"]))
         for ev in g["events"].values():
